@@ -354,6 +354,29 @@ func checkWellKnown(c *fw.Ctx) {
 	if fn == nil {
 		return
 	}
+	// the reply is buffered whole (through the size-limited reader) and parsed as one document:
+	// a streaming decoder accepts a valid first value and ignores whatever follows, so a reply
+	// with trailing garbage - or one that is larger than the limit after its first value - is honoured
+	{
+		construct := "the well-known reply is parsed as a whole document"
+		dec, more := "", false
+		for _, dc := range fw.AllDeepCalls(fn, stopExported) {
+			switch n := fw.CalleeName(dc.Call); n {
+			case "(*encoding/json.Decoder).Decode":
+				dec = c.P.Pos(dc.Call.Pos())
+			case "(*encoding/json.Decoder).More", "(*encoding/json.Decoder).Buffered", "(*encoding/json.Decoder).InputOffset", "(*encoding/json.Decoder).Token":
+				more = true
+			}
+		}
+		switch {
+		case dec != "" && !more:
+			c.Fail(rule, construct, dec, "the reply is decoded with json.Decoder.Decode, which stops after the first JSON value: trailing data is ignored and the 50 KiB limit no longer bounds what is accepted")
+		case dec != "":
+			c.Undecided(rule, construct, "a streaming decoder is used together with a look at the remaining input")
+		default:
+			c.Ok(rule, construct, c.P.Pos(fn.Pos()), "no streaming decoder in LookupWellKnown or its helpers")
+		}
+	}
 	requireOnSuccess(c, rule, "LookupWellKnown", fn, []need{
 		nd("the request was sent", true, ".Do(", "#1 == nil)"),
 		nd("status 200", true, ".StatusCode == 200)"),
